@@ -72,10 +72,11 @@ fn one<X: Sx, Y: Sx>(ctx: &Ctx, idx: u64, l: usize, m: usize, all_flips: bool) {
         sign_with("other-suite", "-".into(), &comy.to_bytes());
     }
     // truncation / extension by whole scalars
+    // every whole-scalar truncation, down to the bare commitment point
+    for k in 1..=(cwp.len() - 48) / 32 {
+        sign_with("truncated", format!("{k}"), &cwp[..cwp.len() - 32 * k]);
+    }
     for k in 1..=3usize {
-        if cwp.len() >= 48 + 32 * (k + 2) {
-            sign_with("truncated", format!("{k}"), &cwp[..cwp.len() - 32 * k]);
-        }
         for (fill, nm) in [(vec![0u8; 32], "zero"), (crate::refimpl::scalar_be(&crate::c04::rand_scalar(&mut r)).to_vec(), "random"), (cwp[cwp.len() - 32..].to_vec(), "copy")] {
             let mut c = cwp.clone();
             for _ in 0..k {
